@@ -5,6 +5,7 @@ name=$1; d=$V/seeded/$name; prop=${name:0:3}
 tmp=$(mktemp -d /tmp/seedm.XXXX); mkdir -p $tmp/repo; cp -r /repo/src $tmp/repo/
 if (cd $tmp/repo && git init -q . && git apply $d/patch.diff 2>/dev/null); then
    out=$(VERIF_REPO=$tmp/repo VERIF_OUT_TAG=$name timeout 1800 python3-vt check.py $prop --jobs ${SEED_JOBS:-4} 2>&1); rc=$?
+   mkdir -p $V/out/scratch; echo "$out" > $V/out/scratch/seed_one_$name.log
    nviol=$(echo "$out" | grep -c "^VIOLATION")
    first=$(echo "$out" | grep "^VIOLATION" | head -1)
    und=$(echo "$out" | grep "^UNDECIDED" | head -2 | tr '\n' ' ' | cut -c1-200)
